@@ -36,7 +36,8 @@ inductive Raise where
   | infeas
   /-- `MP_INFEAS` raised while a constraint is converted / a result is propagated: caught by
       `ConstraintKeeper::{PropagateResult, ConvertAllNewWith, …}`'s `catch (const std::exception&)` and
-      re-raised with `MP_RAISE(prefix + what())` — the code 200 is lost -/
+      re-raised with `MP_RAISE_WITH_CODE(err.exit_code(), prefix + what())`: since f454558 the
+      code 200 is kept (before it was re-raised with `MP_RAISE`, i.e. reported as 500) -/
   | wrappedInfeas
   /-- solution check with `sol:chk:fail`: `MP_RAISE_WITH_CODE(sol::MP_SOLUTION_CHECK = 150, …)` -/
   | solCheck
@@ -74,7 +75,7 @@ def Raise.toExn : Raise → Exn
   | .plain => .mpError (-1)
   | .withCode c => .mpError c
   | .infeas => .mpError 200
-  | .wrappedInfeas => .mpError (-1)
+  | .wrappedInfeas => .mpError 200
   | .solCheck => .mpError 150
   | .unsupported => .mpError EXIT_FAILURE
   | .optionError => .mpError (-1)
@@ -180,6 +181,10 @@ structure OutPath where
   canFlush : Bool
 deriving Repr, DecidableEq
 
+/-- `WriteSolFile` returns normally: the file opens and, since 87b3b50, the final `file.close()`
+(which throws `fmt::SystemError` if any write failed: ENOSPC, EIO) succeeds. -/
+def OutPath.writable (o : OutPath) : Bool := o.canOpen && o.canFlush
+
 /-- A complete description of one run as far as the decision logic is concerned. -/
 structure Scenario where
   flags : List Flag
@@ -266,11 +271,13 @@ def wantsFile (ampl : Bool) (wantsol : Nat) : Bool := ampl || wantsol % 2 == 1
 def suppressMsg (wantsol : Nat) : Bool := (wantsol / 8) % 2 == 1
 
 /-- `AppSolutionHandlerImpl::HandleSolution` → `SolutionWriterImpl::HandleSolution` →
-`WriteSolFile`.  `none` = a `fmt::SystemError` leaves the function (file cannot be opened). -/
+`WriteSolFile`.  `none` = a `fmt::SystemError` leaves the function (the file cannot be opened, or
+the data cannot be written — then a truncated file may stay behind, but the run ends on stderr with a
+non-zero status). -/
 def handleSolution (ampl : Bool) (wantsol : Nat) (out : OutPath) (f : SolFile) : Option Outcome :=
   if wantsFile ampl wantsol then
-    if out.canOpen then
-      some (.sol { f with complete := out.canFlush } (!ampl && !suppressMsg wantsol))
+    if out.writable then
+      some (.sol f (!ampl && !suppressMsg wantsol))
     else none
   else some (.stdoutOnly f.code (!suppressMsg wantsol))
 
@@ -281,9 +288,10 @@ def orStderr : Option Outcome → Outcome
   | none => .stderrExit 1
 
 /-- the solve code `BackendApp::Run` passes to `ReportError`:
-`er.exit_code()>=0 ? er.exit_code() : sol::FAILURE` for an `mp::Error`, `sol::FAILURE` otherwise -/
+`er.exit_code()>=sol::UNCERTAIN ? er.exit_code() : sol::FAILURE` for an `mp::Error` (since abd397a;
+before: `>= 0`, which let `EXIT_FAILURE` = 1 through), `sol::FAILURE` otherwise -/
 def Exn.reportCode : Exn → Int
-  | .mpError c => if c ≥ 0 then c else solFAILURE
+  | .mpError c => if c ≥ 100 then c else solFAILURE
   | .stdExn => solFAILURE
   | .foreign => solFAILURE
 
@@ -396,7 +404,7 @@ deriving Repr, DecidableEq
 def Raise.cause : Raise → Cause
   | .infeas => .infeasible
   | .wrappedInfeas => .infeasible
-  | .withCode c => if c ≥ 0 then .asRaised c else .failure
+  | .withCode c => if c ≥ 100 then .asRaised c else .failure
   | .solCheck => .asRaised 150
   | _ => .failure
 
@@ -421,8 +429,8 @@ def firstCause (sc : Scenario) : Option Cause := (ending sc).cause
 solution handler, dimensions unknown), or `<stub>.sol` cannot be opened for writing. -/
 def cannotWrite (sc : Scenario) : Ending → Bool
   | .info => false
-  | .raised _ _ st _ => !st.handlerAvailable || !sc.out.canOpen
-  | .finished _ _ => !sc.out.canOpen
+  | .raised _ _ st _ => !st.handlerAvailable || !sc.out.writable
+  | .finished _ _ => !sc.out.writable
 
 /-- **The property** for one run that ends as `e`: the outcome is one of the two allowed ones.
 * a *complete* `.sol` whose count lines equal the NL header's (and whose value blocks are empty
